@@ -31,6 +31,7 @@ def run(ck):
         "the callsite has a matcher, and keeps the scope stack in a ThreadLocal. The grammar, Display/parse round trips, "
         "tie-breaking and value matchers are input-quantified and NOT decided.")
     ck.assumptions += ["slice::binary_search/insert semantics", "Dynamics::matcher deliberately folds over all caring directives (not covered)"]
+    ck.rule("C11.R7", "directive levels are compared by a correct total order (as C19.R1/R2/R4)", floor=60)
     ck.rule("C11.R1", "directive vector mutated only by DirectiveSet::add at the binary_search position; max_level kept an upper bound", floor=5)
     ck.rule("C11.R2", "first match in storage order decides; no match disables; siblings agree", floor=4)
     ck.rule("C11.R3", "prefix direction and field-name constraints", floor=3)
@@ -43,6 +44,8 @@ def run(ck):
     r4(ck, F)
     r5(ck, F)
     r6(ck, F)
+    from rules import C19
+    C19.order_rules(ck, Facts("default"), "C11.R7")
     # the cached max level gates Targets and EnvFilter before any directive is looked at (C08.R4's rule, instantiated):
     # a directive that overwrites an equal one must still raise it, or the most specific match is never consulted
     from rules import C08
